@@ -77,6 +77,77 @@ func relDirIDPresent(w *refgraph.World) bool {
 	return found
 }
 
+// c04RootForms: the root-based entry points called several times in a row with ONE cache, the root supplied in each
+// of its forms - typed document, generic JSON (a map, which Go cannot compare), the schema itself, nil: a result or
+// an error, never a panic, on every call of the sequence.
+func c04RootForms(c *Ctx) {
+	for i := 0; i < c.N(12, 200); i++ {
+		w := refgraph.Generate(c.Rng, refgraph.Options{Docs: 1, Defs: 3, Elements: true, Cycles: i%2 == 0, RefP: 0.6})
+		if len(w.BuildGraph().Missing) > 0 {
+			continue
+		}
+		rootText := w.Docs[w.Root].Text()
+		forms := map[string]func() interface{}{
+			"typed": func() interface{} { sw, _ := decodeSwagger(w.Docs[w.Root]); return sw },
+			"generic": func() interface{} {
+				var x interface{}
+				_ = json.Unmarshal([]byte(rootText), &x)
+				return x
+			},
+			"nil": func() interface{} { return nil },
+		}
+		for form, mk := range forms {
+			for _, fresh := range []bool{false, true} {
+				// fresh=false: the SAME root value for every call; true: an equal root decoded anew for each call
+				cache := spec.VerifDefaultCache()
+				root := mk()
+				calls := 0
+				for round := 0; round < 2; round++ {
+					for _, sec := range []string{"definitions", "parameters", "responses"} {
+						secV, ok := w.Docs[w.Root].Get(sec)
+						if !ok || secV.Kind != wire.Obj {
+							continue
+						}
+						for _, m := range secV.O {
+							if fresh {
+								root = mk()
+							}
+							calls++
+							var err error
+							pan := safely(func() {
+								switch sec {
+								case "definitions":
+									var s spec.Schema
+									if json.Unmarshal([]byte(m.V.Text()), &s) == nil {
+										err = spec.ExpandSchema(&s, root, cache)
+									}
+								case "parameters":
+									var p spec.Parameter
+									if json.Unmarshal([]byte(m.V.Text()), &p) == nil {
+										err = spec.ExpandParameterWithRoot(&p, root, cache)
+									}
+								default:
+									var r spec.Response
+									if json.Unmarshal([]byte(m.V.Text()), &r) == nil {
+										err = spec.ExpandResponseWithRoot(&r, root, cache)
+									}
+								}
+							})
+							_ = err
+							c.Hit("root-form:" + form)
+							if pan != "" {
+								c.Fail(Failure{Kind: "crash", Sig: "C04:panic", What: fmt.Sprintf("call %d of a sequence sharing one cache, root supplied as %s (fresh value per call: %v), /%s/%s: panic: %s", calls, form, fresh, sec, m.K, pan),
+									Case: map[string]interface{}{"world": worldJSON(w), "root-form": form, "fresh-root-per-call": fresh, "element": []string{sec, m.K}, "call": calls}})
+							}
+						}
+					}
+				}
+				c.Count(fmt.Sprint("root-forms", worldJSON(w), form, fresh), true)
+			}
+		}
+	}
+}
+
 func runC04(c *Ctx) {
 	c.Res.Rule = "random reference graphs (8 families: self loops, mutual and nested cycles through every schema keyword, cycles through parameters / responses / path items, cycles across documents) x id flavours {none, absolute, relative file, relative directory, fragment} x 0-2 injected faults (dangling or ill-typed targets, refused documents) x all four combinations of SkipSchemas and ContinueOnError plus EVERY reference graph on up to 3 nodes of one kind (schemas as aliases and under keywords, parameters, responses, path items; self loops, 2- and 3-cycles, chains) x six spelling classes of the root location (file, http, upper-case host, explicit default ports) x option combinations; x entry points {ExpandSpec, ExpandSchemaWithBasePath, ExpandSchema, ExpandParameterWithRoot, ExpandResponseWithRoot, ExpandParameter, ExpandResponse}; each call under a 20 s watchdog with panics recovered; oracle: a result or an error, never a panic or a hang, at most one loader request per document; the model's expander on the abstracted world must not run out of its proved fuel bound; non-trivial = cyclic graph or fault present; distinct by (world, ids, faults, options, entry)"
 	n := c.N(240, 6000)
@@ -86,6 +157,7 @@ func runC04(c *Ctx) {
 	// dangling pointers through typed containers and into optional members that are not set, through ExpandSpec
 	// and ExpandSchema (typed root held in the cache; schema as its own root): an error, never a panic
 	c08ContainerProbes(c)
+	c04RootForms(c)
 	var jobs []childJob
 	defer func() { runChildJobs(c, jobs) }()
 	for i := 0; i < n; i++ {
